@@ -526,6 +526,28 @@ class SimBus:
         return [t for t in self.tasks if not t.stopped]
 
 
+FILLS = ("pattern", "zero", "ff", "80", "nul-tail", "abort-like")
+
+
+def fill(n, seed=0, kind="pattern"):
+    """Payload families for length sweeps: position dependent bytes, constant 00 / FF / 80, a NUL tail, and bytes that
+    look like SDO abort / response frames when cut into 7-byte segments."""
+    if kind == "zero":
+        return bytes(n)
+    if kind == "ff":
+        return b"\xff" * n
+    if kind == "80":
+        return b"\x80" * n
+    if kind == "nul-tail":
+        p = pattern(n, seed)
+        k = min(6, n)
+        return p[:n - k] + bytes(k)
+    if kind == "abort-like":
+        unit = bytes([0x80, 0x00, 0x20, 0x00, 0x00, 0x00, 0x04, 0xC1, 0x00, 0x00, 0x00, 0x00, 0x00, 0x00, 0xA2, 0x7F, 0x7F])
+        return (unit * (n // len(unit) + 1))[:n]
+    return pattern(n, seed)
+
+
 def pattern(n, seed=0):
     """Position dependent, never-zero payload bytes."""
     return bytes(((i * 37 + 11 + seed) % 255) + 1 for i in range(n))
